@@ -382,6 +382,20 @@ ObsPreserved ==
         /\ calls = obs0.o.calls
         /\ SameGlobals(Obs.globals, obs0.o.globals)
 
+\* Trace validation against an execution of the artifact by something other than TLC
+\* (generated Python, native code, an emulator): the case carries what the implementation
+\* observed,  obs = [outcome : "ok" | "trap" | "error:<class>", ret : word | <<>>,
+\*                   globals : Seq([name, bytes]), hascalls : BOOLEAN, calls : Seq([name, args])].
+\* Whenever the IR execution of mods[1] is fully defined the observation must coincide.
+GlobalByName(n) == LET S == {k \in VarIdx : M.globals[k].name = n} IN
+                   IF S = {} THEN <<>> ELSE GlobalBytes(CHOOSE k \in S : TRUE)
+ObsMatchesImpl ==
+    (Finished /\ ph = 1 /\ status = "ok" /\ "obs" \in DOMAIN C) =>
+        /\ C.obs.outcome = "ok"
+        /\ ret = C.obs.ret
+        /\ \A j \in 1..Len(C.obs.globals) : GlobalByName(C.obs.globals[j].name) = C.obs.globals[j].bytes
+        /\ (C.obs.hascalls => calls = C.obs.calls)
+
 \* sanity of the semantics itself: exactly one instruction action is enabled while running
 TypeOK == /\ status \in {"run", "ok", "undefined", "outofmodel", "fuel", "stuck", "idle"}
           /\ (status = "run" => Len(stack) >= 1)
